@@ -7,6 +7,9 @@ import PromqlVerif.Coalesce
 import PromqlVerif.Dist
 import PromqlVerif.Hints
 import PromqlVerif.Slices
+import PromqlVerif.Remote
+import PromqlVerif.Streams
+import PromqlVerif.Ops
 open PromqlVerif
 
 structure DState where
@@ -267,6 +270,161 @@ def coalesceView (args : List String) : String :=
     r.getD "bad-op"
   | _ => "bad-op"
 
+/-- `kernel remote <lookback> <grid csv> <series>#<series>..`, a series being `e` (no points) or
+`t:bits,t:bits,..`: the model of the remote operator's stream (`remoteRun` with the given lookback;
+the code uses 0) and the specification (the points stamped `t`) -/
+def remoteView (args : List String) : String :=
+  match args with
+  | [lb, grid, mat] =>
+    let r : Option String := do
+      let lb ← lb.toInt?
+      let grid ← (grid.splitOn ",").mapM String.toInt?
+      let m ← (mat.splitOn "#").mapM fun sr =>
+        if sr == "e" then some (([] : Labels), ([] : List (Int × Float)))
+        else ((sr.splitOn ",").mapM fun (p : String) =>
+          match p.splitOn ":" with
+          | [t, b] => do
+            let t ← t.toInt?
+            let f ← parseBits b
+            some (t, f)
+          | _ => none).map fun pts => (([] : Labels), pts)
+      let sh := fun (x : Int × List (Nat × Float)) => showSV (x.1, x.2)
+      some ("read=" ++ String.intercalate ";" ((remoteRun lb m grid).map sh) ++
+        " spec=" ++ String.intercalate ";" (grid.map fun t => sh (t, remoteSpec m t)))
+    r.getD "bad-op"
+  | _ => "bad-op"
+
+/-! `kernel pull`: the batch-level model (`Streams.lean`) over payloads `IdVec Float`, with the
+per-step functions of the real operators the harness builds: `N` unary minus, `A` sum by (),
+`Z` + on() between two one-series sides, `F` clamp_min(v, s), `B` v + s (scalar on the right), `C<n>` coalesce (the right child's
+IDs rebased by n), `I<stop>:<cur>` the step-invariant cache, `L<stop>:<cur>:<bits>` a number
+literal, `S<k>` the k-th scripted child. -/
+namespace PullView
+open PromqlVerif.Streams
+
+abbrev P := IdVec Float
+
+def gNeg (_ : Int) (a : P) : P := a.map fun x => (x.1, Val.neg x.2)
+def gSum (_ : Int) (a : P) : P := if a.isEmpty then [] else [(0, a.foldl (fun acc x => Val.add acc x.2) (Val.ofInt 0))]
+def gAdd (tl tr : Int) (a b : P) : P :=
+  if tl != tr then [] else
+  match a, b with
+  | [(_, x)], [(_, y)] => [(0, Val.add x y)]
+  | _, _ => []
+def gClampMin (_ : Int) (a : P) (s : Option P) : P :=
+  let sv : Float := match s with
+    | some ((_, v) :: _) => v
+    | _ => Val.nan
+  a.map fun x => (x.1, Val.maxGo x.2 sv)
+def gAddScalar (_ : Int) (a : P) (s : Option P) : P :=
+  let sv : Float := match s with
+    | some ((_, v) :: _) => v
+    | _ => Val.nan
+  a.map fun x => (x.1, Val.add x.2 sv)
+def gCo (n : Nat) (_ : Int) (a b : Option P) : P :=
+  (a.getD []) ++ ((b.getD []).map fun x => (x.1 + n, x.2))
+
+/-- recursive descent over the tree text; returns the plan and the rest of the input -/
+def parse (bsz : Nat) (scripts : List (List (Option (Batch P)))) : Nat → List Char → Option (Plan P × List Char)
+  | 0, _ => none
+  | fuel + 1, cs =>
+    let num := fun (cs : List Char) =>
+      let d := cs.takeWhile fun c => c.isDigit || c == '-' || c.isAlphanum
+      (String.ofList d, cs.drop d.length)
+    let two := fun (mk : Plan P → Plan P → Plan P) (rest : List Char) =>
+      match rest with
+      | '(' :: r1 =>
+        match parse bsz scripts fuel r1 with
+        | some (x, ',' :: r2) =>
+          match parse bsz scripts fuel r2 with
+          | some (y, ')' :: r3) => some (mk x y, r3)
+          | _ => none
+        | _ => none
+      | _ => none
+    let one := fun (mk : Plan P → Plan P) (rest : List Char) =>
+      match rest with
+      | '(' :: r1 =>
+        match parse bsz scripts fuel r1 with
+        | some (x, ')' :: r2) => some (mk x, r2)
+        | _ => none
+      | _ => none
+    match cs with
+    | 'S' :: r =>
+      let (n, r') := num r
+      n.toNat?.bind fun k => scripts[k]?.map fun sc => (Plan.script sc, r')
+    | 'N' :: r => one (Plan.map gNeg) r
+    | 'A' :: r => one (Plan.map gSum) r
+    | 'Z' :: r => two (Plan.zip gAdd) r
+    | 'F' :: r => two (Plan.fn true gClampMin) r
+    | 'B' :: r => two (Plan.fn false gAddScalar) r
+    | 'C' :: r =>
+      let (n, r') := num r
+      n.toNat?.bind fun k => two (Plan.co (gCo k)) r'
+    | 'I' :: r =>
+      let (a, r1) := num r
+      match r1 with
+      | ':' :: r2 =>
+        let (b, r3) := num r2
+        match a.toInt?, b.toInt? with
+        | some stop, some cur => one (fun x => Plan.inv stop cur none [] 0 x) r3
+        | _, _ => none
+      | _ => none
+    | 'L' :: r =>
+      let (a, r1) := num r
+      match r1 with
+      | ':' :: r2 =>
+        let (b, r3) := num r2
+        match r3 with
+        | ':' :: r4 =>
+          let (c, r5) := num r4
+          match a.toInt?, b.toInt?, parseBits c with
+          | some stop, some cur, some v => some (Plan.leaf (fun _ => [(0, v)]) stop cur bsz, r5)
+          | _, _, _ => none
+        | _ => none
+      | _ => none
+    | _ => none
+
+def scriptsLeft : Plan P → List Nat
+  | .script bs => [bs.length]
+  | .map _ c => scriptsLeft c
+  | .zip _ l r => scriptsLeft l ++ scriptsLeft r
+  | .fn _ _ v s => scriptsLeft v ++ scriptsLeft s
+  | .co _ l r => scriptsLeft l ++ scriptsLeft r
+  | .inv _ _ _ _ _ c => scriptsLeft c
+  | .leaf _ _ _ _ => []
+
+def finalPlan (k : Cfg) : Nat → Plan P → Plan P
+  | 0, p => p
+  | n + 1, p => finalPlan k n (next k p).2
+
+def view (args : List String) : String :=
+  match args with
+  | [b, step, ncalls, tree, scripts] =>
+    let r : Option String := do
+      let b ← b.toNat?
+      let step ← step.toInt?
+      let n ← ncalls.toNat?
+      let scs ← if scripts == "_" then some [] else
+        (scripts.splitOn "@").mapM fun sc =>
+          if sc == "x" then some ([] : List (Option (Batch P))) else
+          (sc.splitOn "#").mapM fun (call : String) =>
+            if call == "-" then some (none : Option (Batch P))
+            else if call == "e" then some (some [])
+            else ((call.splitOn ";").mapM parseSV).map some
+      let (p, rest) ← parse b scs 64 tree.toList
+      if !rest.isEmpty then none
+      let k : Cfg := ⟨step, b⟩
+      let outs := run k n p
+      let sh := fun (o : Option (Batch P)) => match o with
+        | none => "nil"
+        | some bt => if bt.isEmpty then "e" else String.intercalate ";" (bt.map showSV)
+      some ("out=" ++ String.intercalate "#" (outs.map sh) ++ " left=" ++
+        String.intercalate "," ((scriptsLeft (finalPlan k n p)).map toString))
+    r.getD "bad-op"
+  | _ => "bad-op"
+
+end PullView
+
 def stepLine (s : DState) (line : String) : DState × Option String :=
   let toks := (line.splitOn " ").filter (· != "")
   match toks with
@@ -298,6 +456,12 @@ def stepLine (s : DState) (line : String) : DState × Option String :=
     | none => ({ s with bad := true }, none)
   | "kernel" :: "acc" :: args => (s, some ("kernel " ++ accView args))
   | "kernel" :: "coalesce" :: args => (s, some ("kernel " ++ coalesceView args))
+  | ["kernel", "numsteps", a, b, c, d] =>
+    (s, some ("kernel " ++ (match a.toInt?, b.toInt?, c.toInt?, d.toNat? with
+      | some start, some stop, some step, some bsz => toString (numStepsBatch ⟨start, stop, step⟩ bsz)
+      | _, _, _, _ => "bad-op")))
+  | "kernel" :: "pull" :: args => (s, some ("kernel " ++ PullView.view args))
+  | "kernel" :: "remote" :: args => (s, some ("kernel " ++ remoteView args))
   | "kernel" :: "table" :: args => (s, some ("kernel " ++ tableView args))
   | "kernel" :: "slices" :: args => (s, some ("kernel " ++ slicesView args))
   | "kernel" :: what :: args => (s, some ("kernel " ++ (if s.bad then "bad-op" else kernelView s what args)))
